@@ -168,6 +168,22 @@ pub fn build(specs: &[PrecompileSpec], log: &std::sync::Arc<PrecompileLog>) -> V
                 };
                 out(400, v, input)
             }),
+            PrecompileKind::FaultRemapper => DynParallelPrecompile::new(id, move |input| {
+                log.calls.fetch_add(1, Ordering::Relaxed);
+                let data = input.data().to_vec();
+                let op = data.first().copied().unwrap_or(0);
+                let address = addr_at(&data, 1);
+                let key = word(&data, 21);
+                // balance for even ops, sload for odd ones; a facade error becomes a halt of its own
+                let r = if op % 2 == 0 { input.state().balance(address) } else { input.state().sload(address, key) };
+                match r {
+                    Ok(load) => out(400, load.data, input),
+                    Err(_) => {
+                        log.ignored_faults.fetch_add(1, Ordering::Relaxed);
+                        Err(ParallelPrecompileError::Halt(PrecompileHalt::OutOfGas))
+                    }
+                }
+            }),
             PrecompileKind::Halter => DynParallelPrecompile::new(id, move |_input| {
                 log.calls.fetch_add(1, Ordering::Relaxed);
                 log.halts.fetch_add(1, Ordering::Relaxed);
